@@ -50,7 +50,7 @@ var c27Addrs = []c27Addr{{"127.0.0.1", "", true}, {"127.9.9.9", "", true}, {"::1
 	{"10.0.0.5", "", false}, {"192.168.1.7", "", false}, {"2001:db8::1", "", false}, {"fe80::1", "eth0", false}, {"::ffff:10.0.0.5", "", false}, {"128.0.0.1", "", false}}
 
 var c27Progs = []uint32{100003, 100005, 200001, 100021, 100024, 300019}
-var c27PVers = []uint32{1, 3}
+var c27PVers = []uint32{1, 3, 2}
 
 func genC27(t *rapid.T) c27Case {
 	var c c27Case
@@ -77,7 +77,7 @@ func genC27(t *rapid.T) c27Case {
 	n := rapid.IntRange(2, 25).Draw(t, "n")
 	for i := 0; i < n; i++ {
 		cl := c27Call{Addr: rapid.IntRange(0, len(c27Addrs)-1).Draw(t, "addr"), Vers: pick(t, "vers", uint32(2), 2, 3, 4, 3, 1, 5), Proc: pick(t, "proc", uint32(1), 1, 1, 2, 2, 3, 3, 4, 4, 0, 5, 9),
-			Prog: rapid.IntRange(0, 5).Draw(t, "prog"), PVers: rapid.IntRange(0, 1).Draw(t, "pvers"), Prot: pick(t, "prot", 0, 0, 0, 1, 1, 1, 2),
+			Prog: rapid.IntRange(0, 5).Draw(t, "prog"), PVers: rapid.IntRange(0, 2).Draw(t, "pvers"), Prot: pick(t, "prot", 0, 0, 0, 1, 1, 1, 2, 3),
 			Port: pick(t, "port", uint32(2049), 635, 1, 65535, 256, 255, 40000), V6: rapid.IntRange(0, 3).Draw(t, "v6") == 0, Cut: rapid.IntRange(0, 5).Draw(t, "cut")}
 		if rapid.IntRange(0, 2).Draw(t, "loop") == 0 {
 			cl.Addr = rapid.IntRange(0, 3).Draw(t, "laddr")
@@ -145,6 +145,9 @@ func runC27(tb stat.TB, c c27Case) {
 		}
 		if cl.Prot == 2 && cl.Vers == 2 {
 			prot = 132
+		}
+		if cl.Prot == 3 && cl.Vers == 2 {
+			prot = 262 // (a protocol number beyond one byte: the key is the full 32-bit triple)
 		}
 		if cl.V6 {
 			netid += "6"
